@@ -625,14 +625,19 @@ class FnXlate:
             self.uses_undef = True
             terms.append("undef")
         ptrs = {}
-        for (kind, pname, _), a in zip(info.params, args):
+        # the callee's signature lists, per C parameter IN PARAMETER ORDER, the integer itself or the families reached
+        # through the pointer, then the globals (translate_once): the argument terms are emitted in that same order
+        groups = []
+        for (kind, pname, third), a in zip(info.params, args):
             if kind == "int":
                 e = self.rv(a)
                 self.conds += e.conds
-                terms.append(self.atom(e.term))
+                groups.append([self.atom(e.term)])
             else:
                 ptrs[pname] = self.ptr(a)
+                groups.append(third)        # position of the pointer parameter
         outs = []
+        fam_term = {}
         for f in info.fams:
             root = f.comps[0]
             if root in ptrs:
@@ -644,9 +649,15 @@ class FnXlate:
                 comps = f.comps     # a global
             mine = self.fam(comps, f.arity, f.ty, n, self.rootkey(comps))
             self.used_fams.add(mine.comps)
-            terms.append(mine.name)
+            fam_term[id(f)] = mine.name
             if f in info.written:
                 outs.append(mine)
+        for g in groups:
+            if isinstance(g, list):
+                terms.extend(g)
+            else:
+                terms.extend(fam_term[id(f)] for f in info.fams if f.rootkey == (0, g))
+        terms.extend(fam_term[id(f)] for f in info.fams if f.rootkey[0] == 1)
         self.ntmp += 1
         r = f"call{self.ntmp}"
         self.pre.append(("let", r, " ".join([info.lean] + terms)))
@@ -1493,17 +1504,50 @@ def write_translated(ns, items):
 # the translated units of this project: Lean module name -> functions (regenerated by the owning checks,
 # see tools/gen_consts.py GENERATORS)
 
+_X06 = {"src": "src/fe_interface.c", "cls": "c2lean_x06:FnXlate06", "pos_params": {"inout_spch": "pos"},
+        "cell_params": {"inout_nsamps": "val"}, "intptr_vars": ("orig_spch", "orig"), "null_params": ("buf_cep",),
+        "drop_calls": ("memcpy", "memmove", "__builtin_memcpy", "__builtin_memmove", "fe_write_frame", "__assert_fail"),
+        "enums": ("fe_encoding_e",), "ignore_calls": ("err_msg",)}
+
+_X06S = {"src": "src/fe_sigproc.c", "cls": "c2lean_x06:FnXlate06", "ignore_calls": ("err_msg",),
+         "drop_calls": ("memcpy", "memmove", "memset", "__builtin_memcpy", "__builtin_memmove", "__builtin_memset",
+                        "fe_pre_emphasis", "fe_copy_to_frame", "fe_hamming_window", "s3_rand_int31", "genrand_int31",
+                        "__assert_fail")}
+
 UNITS = {
     # C02 / C01: the 3-state HMM update (scores and back-pointers)
     "Hmm": [{"src": "src/hmm.c", "fn": "hmm_vit_eval_3st_lr"}, {"src": "src/hmm.c", "fn": "hmm_vit_eval_5st_lr"},
             {"src": "src/hmm.c", "fn": "hmm_normalize"}],    # C04: renormalisation of the aligner
+    # C18: the any-topology evaluator (nested loops over the transition matrix; `(x = e)` used as a value is the
+    # additive node kind of tools/c2lean_x18.py).  Its own unit: Hmm.lean is shared with C01/C02/C04.
+    "HmmAny": [{"src": "src/hmm.c", "fn": "hmm_vit_eval_anytopo", "cls": "c2lean_x18:FnXlate18"},
+               {"src": "src/hmm.c", "fn": "hmm_vit_eval_3st_lr_mpx"},    # C18: multiplex 3-state evaluator (overflow checks)
+               {"src": "src/hmm.c", "fn": "hmm_enter"}, {"src": "src/hmm.c", "fn": "hmm_clear"},   # C18: between / before frames
+               # C18: the dispatcher `hmm_vit_eval` and the evaluators it can call (the 3-/5-state ones once more, in this
+               # namespace: a call needs the callee in the same unit)
+               {"src": "src/hmm.c", "fn": "hmm_vit_eval_3st_lr"}, {"src": "src/hmm.c", "fn": "hmm_vit_eval_5st_lr"},
+               {"src": "src/hmm.c", "fn": "hmm_vit_eval_5st_lr_mpx"}, {"src": "src/hmm.c", "fn": "hmm_vit_eval"}],
     # C20: the hash function of both table modes and the table-size selection (E_WARN = err_msg call dropped)
     "HashTable": [{"src": "src/hash_table.c", "fn": "key2hash"},
                   {"src": "src/hash_table.c", "fn": "prime_size", "ignore_calls": ("err_msg",)}],
     # C19: the table-driven log-add (the floating-point fallback `logmath_add_exact` is an opaque parameter)
     "LogMath": [{"src": "src/logmath.c", "fn": "logmath_add", "opaque_calls": ("logmath_add_exact",)}],
     # C06: number of frames a call of fe_process will produce (the `buf_cep == NULL` query), size_t arithmetic
-    "FeInterface": [{"src": "src/fe_interface.c", "fn": "output_frame_count"}],
+    "FeInterface": [{"src": "src/fe_interface.c", "fn": "output_frame_count"}] +
+                   # C06 (tools/c2lean_x06.py): the sample bookkeeping of fe_process and its helpers; float stores are havoc,
+                   # the input pointer is an element position, the frame functions are opaque families
+                   [dict(_X06, fn=f, **kw) for f, kw in (
+                       ("create_overflow_frame", {}), ("overflow_append", {}),
+                       ("read_overflow_frame", {"drop_calls": _X06["drop_calls"] + ("fe_read_frame_float32",)}),
+                       ("append_overflow_frame", {}),
+                       ("fe_process", {"opaque_fams": ("fe_read_frame_float32", "fe_read_frame_int16",
+                                                       "fe_shift_frame_float32", "fe_shift_frame_int16")}),
+                       ("fe_end", {"drop_calls": _X06["drop_calls"] + ("fe_read_frame_float32",)}),
+                       ("fe_process_float32", {}), ("fe_process_int16", {}))],
+    # C06 (tools/c2lean_x06.py): what the four frame functions called by fe_process return (float loops, dither,
+    # memmove, windowing dropped as havoc; the integer control flow and the value returned are kept)
+    "FeSigproc": [dict(_X06S, fn=f) for f in ("fe_spch_to_frame", "fe_read_frame_int16", "fe_read_frame_float32",
+                                              "fe_shift_frame_int16", "fe_shift_frame_float32")],
     # C16: compression of a right-context table into distinct senone-sequence ids + a map
     "Dict2pid": [{"src": "src/dict2pid.c", "fn": "compress_table"}],
     # C07: ring index of a frame in feat_buf and the advance of the output side (E_ERROR = err_msg call dropped)
@@ -1511,12 +1555,30 @@ UNITS = {
               {"src": "src/acmod.c", "fn": "acmod_advance"}],
     # C15: the speech-frame count over the ring of flags
     "Endpointer": [{"src": "src/ps_endpointer.c", "fn": "ep_empty"}, {"src": "src/ps_endpointer.c", "fn": "ep_full"},
-                   {"src": "src/ps_endpointer.c", "fn": "ep_speech_count"}],
+                   {"src": "src/ps_endpointer.c", "fn": "ep_speech_count"},
+                   # ring push / pop (Props/C15Xlate2): doubles as opaque tokens, memcpy payload dropped, pointer result
+                   # as element offset — extension class tools/c2lean_x15.py
+                   {"src": "src/ps_endpointer.c", "fn": "ep_push", "cls": "c2lean_x15:FnXlate15", "ignore_calls": ("memcpy",)},
+                   {"src": "src/ps_endpointer.c", "fn": "ep_pop", "cls": "c2lean_x15:FnXlate15", "ptr_result": True},
+                   # the start/end decision of endpointer_process: vad_classify opaque, E_ERROR/E_DEBUG dropped
+                   {"src": "src/ps_endpointer.c", "fn": "endpointer_process", "cls": "c2lean_x15:FnXlate15",
+                    "ignore_calls": ("memcpy", "err_msg"), "opaque_calls": ("vad_classify",), "ptr_result": True,
+                    "ptr_fns": ("ep_pop",)},
+                   # the pop loop of endpointer_end_stream (`*out_nsamp` count), translated as a fragment: the first
+                   # `while` of the function; `ep_pop(ep, &is_speech)` with the address of a local
+                   {"src": "src/ps_endpointer.c", "fn": "endpointer_end_stream", "lean": "end_stream_loop",
+                    "cls": "c2lean_x15:FnXlate15", "ignore_calls": ("memcpy", "err_msg"), "first_while": True}],
 }
 
 
 # which property's check regenerates (and whose CxxXlate theorems are about) which unit
-OWNERS = {"C02": ["Hmm"], "C01": ["Hmm"], "C19": ["LogMath"], "C20": ["HashTable"], "C15": ["Endpointer"], "C07": ["Acmod"], "C04": ["Hmm"], "C06": ["FeInterface"], "C18": ["Hmm"], "C16": ["Dict2pid"]}
+OWNERS = {"C02": ["Hmm"], "C01": ["Hmm"], "C19": ["LogMath"], "C20": ["HashTable"], "C15": ["Endpointer"], "C07": ["Acmod"], "C04": ["Hmm"], "C06": ["FeInterface", "FeSigproc"], "C18": ["Hmm", "HmmAny"], "C16": ["Dict2pid"]}
+
+# units of agent xlate-b: data in tools/c2lean_xb_units.py, extension subclass in tools/c2lean_xb.py (additive)
+import c2lean_xb_units as _xb_units
+UNITS.update(_xb_units.UNITS)
+for _p, _us in _xb_units.OWNERS.items():
+    OWNERS.setdefault(_p, []).extend(_u for _u in _us if _u not in OWNERS.get(_p, []))
 
 _GENS = {}
 
